@@ -515,7 +515,7 @@ func (fc *FuncCtx) callFunc(st *State, fn *types.Func, recv *Val, recvExpr ast.E
 		return v
 	}
 	// 3. contract
-	if c := fc.eng.contractFor(fn); c != nil {
+	if c := fc.eng.contractFor(fn); c != nil && fc.contractApplies(c, recv) {
 		return fc.applyContract(st, fn, c, recv, args, resT, pos, ellipsis)
 	}
 	// 4. default: pure uninterpreted function of the arguments
@@ -1024,4 +1024,24 @@ func trustListed(list, name string) bool {
 		}
 	}
 	return false
+}
+
+// contractApplies: "opt recvhas=M" restricts an interface-method contract to receivers whose static type also has a
+// method M (e.g. the set reading of Equatable.Equal applies only to set types).
+func (fc *FuncCtx) contractApplies(c *FuncContract, recv *Val) bool {
+	m := c.Opts["recvhas"]
+	if m == "" {
+		return true
+	}
+	if recv == nil || recv.Typ == nil {
+		return false
+	}
+	obj, _, _ := types.LookupFieldOrMethod(recv.Typ, true, nil, m)
+	if obj == nil {
+		if p := pointee(recv.Typ); p != nil {
+			obj, _, _ = types.LookupFieldOrMethod(p, true, nil, m)
+		}
+	}
+	_, ok := obj.(*types.Func)
+	return ok
 }
